@@ -94,8 +94,7 @@ func c18Reference(logits []float32, temp float32, topK int, topP, minP float32) 
 
 	// ---- scaled logits
 	T := math.Max(float64(temp), c18TempFloor)
-	var z, lo, hi, wlo [c18MaxN]float64 // lo/hi: bounds of the log weight
-	whi := ref.whi[:n]
+	var z [c18MaxN]float64
 	zmax := math.Inf(-1)
 	for i := range x {
 		z[i] = x[i] / T
@@ -107,9 +106,36 @@ func c18Reference(logits []float32, temp float32, topK int, topP, minP float32) 
 		}
 	}
 
-	// ---- weights relative to the maximum, with rounding envelopes
+	// ---- weights relative to the maximum, with rounding envelopes.  When a scaled logit
+	// leaves the float32 range a sampler may either keep the exact quotient (wider
+	// arithmetic) or saturate it at +-MaxFloat32; a token fails top-p / min-p only if it
+	// fails under both readings.
+	ref.failP, ref.failM = c18Filters(&ref, z[:n], zmax, topP, minP, true)
+	if ref.overflow {
+		var zs [c18MaxN]float64
+		smax := math.Inf(-1)
+		for i := range x {
+			zs[i] = z[i]
+			if !math.IsInf(x[i], 0) {
+				zs[i] = math.Max(-math.MaxFloat32, math.Min(math.MaxFloat32, z[i]))
+			}
+			if ref.failK&(1<<uint(i)) == 0 && zs[i] > smax {
+				smax = zs[i]
+			}
+		}
+		fp, fm := c18Filters(&ref, zs[:n], smax, topP, minP, false)
+		ref.failP &= fp
+		ref.failM &= fm
+	}
+	return ref
+}
+
+// c18Filters evaluates top-p and min-p for one reading z of the scaled logits.
+func c18Filters(ref *c18Ref, z []float64, zmax float64, topP, minP float32, record bool) (failP, failM uint32) {
+	n := len(z)
+	var lo, hi, wlo, whi [c18MaxN]float64 // lo/hi: bounds of the log weight
 	var Whi, Wexact float64
-	for i := range x {
+	for i := 0; i < n; i++ {
 		if ref.failK&(1<<uint(i)) != 0 {
 			continue
 		}
@@ -126,32 +152,37 @@ func c18Reference(logits []float32, temp float32, topK int, topP, minP float32) 
 		Wexact += math.Exp(l)
 	}
 	Whi *= 1 + 1e-6
-	for t := range x {
+	for t := 0; t < n; t++ {
 		if ref.failK&(1<<uint(t)) != 0 {
-			ref.prob[t] = math.NaN()
+			if record {
+				ref.prob[t] = math.NaN()
+			}
 			continue
 		}
-		ref.prob[t] = math.Exp(z[t]-zmax) / Wexact
 		// top-p: the shortest prefix (by descending probability) whose mass exceeds p.
 		// Token t is outside it only if the tokens that are *certainly* more probable
 		// than t already carry more than p.
 		var s float64
-		for j := range x {
+		for j := 0; j < n; j++ {
 			if ref.failK&(1<<uint(j)) == 0 && lo[j] > hi[t] {
 				s += wlo[j]
 			}
 		}
 		s /= Whi
-		ref.sgt[t] = s
+		if record {
+			ref.prob[t] = math.Exp(z[t]-zmax) / Wexact
+			ref.sgt[t] = s
+			ref.whi[t] = whi[t]
+		}
 		if s*(1-c18RelMargin)-1e-30 > float64(topP) {
-			ref.failP |= 1 << uint(t)
+			failP |= 1 << uint(t)
 		}
 		// min-p: prob_t >= minP * prob_max  <=>  weight_t (relative to the max) >= minP
 		if minP > 0 && whi[t]*(1+c18RelMargin)+1e-30 < float64(minP) {
-			ref.failM |= 1 << uint(t)
+			failM |= 1 << uint(t)
 		}
 	}
-	return ref
+	return failP, failM
 }
 
 // admissibleMask returns the ids the oracle would accept (bit i = token i).
@@ -172,9 +203,7 @@ func (ref *c18Ref) admissibleMask() uint32 {
 		return all
 	}
 	m := all &^ ref.failK
-	if !ref.overflow {
-		m &^= ref.failP | ref.failM
-	}
+	m &^= ref.failP | ref.failM
 	for i, v := range ref.x[:ref.n] {
 		if math.IsInf(v, -1) {
 			m &^= 1 << uint(i)
@@ -219,9 +248,6 @@ func (ref *c18Ref) judge(id int32, err error) string {
 	if ref.failK&b != 0 {
 		return "outside-top-k"
 	}
-	if ref.overflow {
-		return ""
-	}
 	if ref.failP&b != 0 {
 		return "outside-top-p"
 	}
@@ -250,7 +276,7 @@ func (ref *c18Ref) explain() string {
 		b.WriteString(" (no finite logit: id in range or error)")
 	default:
 		if ref.overflow {
-			b.WriteString(" (a scaled logit leaves the float32 range: only top-k membership, no error, no -Inf token are demanded)")
+			b.WriteString(" (a scaled logit leaves the float32 range: top-p / min-p failures are reported only if they hold both for the exact and for the saturated quotient)")
 		}
 		for i := 0; i < ref.n; i++ {
 			fmt.Fprintf(&b, "\n    id %d logit %v", i, ref.x[i])
